@@ -118,6 +118,7 @@ type faultCase struct {
 func runEOF(w *harness.W, s spec, r gen.R) {
 	pairs := map[string]struct{}{}
 	k := 0
+	hung := 0
 	for _, str := range corpus() {
 		data := []byte(str)
 		for off := 0; off <= len(data); off++ {
@@ -146,6 +147,18 @@ func runEOF(w *harness.W, s spec, r gen.R) {
 					if key == "" {
 						if off > 3 {
 							w.Sample(fc)
+						}
+						continue
+					}
+					if strings.HasPrefix(key, "lifecycle:no-close") {
+						// the parser did not stop within 20s of the reader's end or
+						// failure; every such case costs the full bound, two witnesses
+						// per batch are enough
+						w.Violation(key+":"+map[bool]string{true: "eof", false: "read-error"}[endErr == io.EOF], detail+" (reader ended with "+fmt.Sprint(endErr)+")", fc, obs, exp)
+						hung++
+						if hung >= 2 {
+							w.Count("batches_cut_short_after_hangs", 1)
+							return
 						}
 						continue
 					}
